@@ -4,6 +4,7 @@
 // "cache"       vt build, GOMAXPROCS=1. Families:
 //
 //	timed  sequential timed histories on the virtual clock (all actions at k s + 500 ms)
+//	burst  sequential histories with hundreds of small entries: mass removal, refill (heap growth / shrinkage)
 //	exh    fixed small concurrent scenarios, schedules enumerated exhaustively (DFS)
 //	sched  generated concurrent scenarios, bounded DFS / random walks
 //
@@ -35,6 +36,7 @@ func run(e *ev.Env) {
 	// 300 000 schedules) are reached by repeating the invocation with derived seeds
 	// (checks_table "reps": 10), not by one long-lived process.
 	e.Cases("timed", e.N(3000, 20000), func(c *ev.Case) { runTimed(e, c) })
+	e.Cases("burst", e.N(48, 600), func(c *ev.Case) { runBurst(e, c) })
 	e.Cases("exh", len(exhScenarios()), func(c *ev.Case) { runExh(e, c) })
 	// a case explores up to schedPerCase schedules of one generated scenario
 	e.Cases("sched", e.N(3000, 30000)/schedPerCase(e), func(c *ev.Case) { runSched(e, c) })
